@@ -6,4 +6,4 @@ From VF Require Export Sched.ProofsAssoc Sched.ProofsBasic Sched.ProofsFrame Sch
   Sched.ProofsPrims Sched.ProofsWaiters Sched.ProofsEnabled Sched.ProofsArmed Sched.ProofsAbsorb Sched.ProofsSyncOut Sched.ProofsTimeouts Sched.ProofsStages
   Sched.ProofsRead Sched.ProofsStruct Sched.ProofsWorkers Sched.ProofsWorkers2 Sched.ProofsWorkers3
   Sched.ProofsExcl Sched.ProofsExcl2 Sched.ProofsExcl3 Sched.ProofsExcl4 Sched.ProofsExcl5 Sched.ProofsExcl6 Sched.ProofsExcl7 Sched.ProofsExcl8
-  Sched.ProofsC01 Sched.ProofsLearner.
+  Sched.ProofsC01 Sched.ProofsLearner Sched.ProofsAttended.
